@@ -14,8 +14,8 @@ import (
 
 func init() {
 	register(&Prop{ID: "C20", Run: runC20, MinNontrivial: 500,
-		Rule:        "cases = (a) conforming SSO responses in every C08 layout (prefix styles, attribute order, quotes, comments, CDATA/char-refs, XML declaration variants, DEFLATE levels, value classes without U+000D) and conforming LogoutResponses from the C10 generator; (b) attacker-shaped roots made acceptable by a trusted-signed assertion inside an unsigned Response or by the skip configuration: duplicated and prefixed root attributes, attribute values with references/whitespace, several Issuer children, Issuer in a foreign namespace or nested, comments/CDATA/references in Issuer, BOM, DOCTYPE, leading whitespace/comments/PIs, XML declarations incl. declared non-UTF-8 encodings; oracle: full validation accepts => the unverified decoder succeeds and reports the same ID, InResponseTo, Destination, Version and Issuer; both succeed => equal; non-trivial = full validation accepted; distinct by hash of the document",
-		Assumptions: []string{"U+000D inside XML attribute values is excluded (finding K1 applies to the validated side)"}})
+		Rule:        "cases = (a) conforming SSO responses in every C08 layout (prefix styles, attribute order, quotes, comments, CDATA/char-refs, XML declaration variants, DEFLATE levels, value classes) and conforming LogoutResponses from the C10 generator; (b) attacker-shaped roots made acceptable by a trusted-signed assertion inside an unsigned Response or by the skip configuration: duplicated and prefixed root attributes, attribute values with references/whitespace, several Issuer children, Issuer in a foreign namespace or nested, comments/CDATA/references in Issuer, BOM, DOCTYPE, leading whitespace/comments/PIs, XML declarations incl. declared non-UTF-8 encodings; oracle: full validation accepts => the unverified decoder succeeds and reports the same ID, InResponseTo, Destination, Version and Issuer; both succeed => equal; non-trivial = full validation accepted; distinct by hash of the document",
+		Assumptions: []string{"values containing \"]]>\" inside XML attributes are skipped (finding K2: such responses are rejected by validation)"}})
 }
 
 type preFields struct {
@@ -140,7 +140,7 @@ func shapeRoot(r *rand.Rand, doc string) (string, string) {
 		start = strings.Replace(start, ` ID="`, ` ID="&#x5f;&#95;`, 1)
 		start += ` InResponseTo="a&amp;b&lt;c&#x20;d&quot;"`
 	case "attr-whitespace":
-		start += " InResponseTo=\"tab\there\nnewline  two\""
+		start += " InResponseTo=\"tab\there\nnewline  two&#13;cr&#xD;&#xA;crlf&#9;\""
 	case "version-dup":
 		start += ` Version="2.0"`
 		start = strings.Replace(start, " Version=", ` Version="1.0" Version=`, 1)
@@ -213,7 +213,7 @@ func runC20(c *mon.Ctx) {
 			continue
 		}
 		r := cs.Rand()
-		g := GenGenuine(r, w, GenOpts{Values: true, NoCR: true, AllowEnc: true})
+		g := GenGenuine(r, w, GenOpts{Values: true, AllowEnc: true})
 		if g.AttrCDEnd {
 			cs.Outcome("skipped-K2-domain")
 			continue
